@@ -370,6 +370,7 @@ func (d *Data) handleIndex(ctx *datastore.VersionedCtx, w http.ResponseWriter, r
 		idx := new(labels.Index)
 		if err := pb.Unmarshal(serialization, idx); err != nil {
 			server.BadRequest(w, r, err)
+			return
 		}
 		if idx.Label != label {
 			server.BadRequest(w, r, "serialized Index was for label %d yet was POSTed to label %d", idx.Label, label)
@@ -529,6 +530,7 @@ func (d *Data) handleIndices(ctx *datastore.VersionedCtx, w http.ResponseWriter,
 	dataIn, err := ioutil.ReadAll(r.Body)
 	if err != nil {
 		server.BadRequest(w, r, err)
+		return
 	}
 	if method == "post" {
 		numAdded, numDeleted, err := putProtoLabelIndices(ctx, dataIn)
@@ -660,13 +662,16 @@ func (d *Data) handleMappings(ctx *datastore.VersionedCtx, w http.ResponseWriter
 		serialization, err := ioutil.ReadAll(r.Body)
 		if err != nil {
 			server.BadRequest(w, r, err)
+			return
 		}
 		var mappings proto.MappingOps
 		if err := pb.Unmarshal(serialization, &mappings); err != nil {
 			server.BadRequest(w, r, err)
+			return
 		}
 		if err := d.ingestMappings(ctx, &mappings); err != nil {
 			server.BadRequest(w, r, err)
+			return
 		}
 		timedLog.Infof("HTTP POST %d mappings (%s)", len(mappings.Mappings), r.URL)
 
